@@ -335,6 +335,8 @@ class Engine:
             return self.set_of(v, st, node)
         if k == "set" and isinstance(v, VSet):
             return v
+        if k == "set" and isinstance(v, VPy) and isinstance(v.obj, tuple) and v.obj[:1] == ("emptyset",):
+            return VSet(z3.K(scalar_sort(self.S, ty.args[0]), z3.BoolVal(False)), ty)
         if k in ("dict", "odict") and isinstance(v, VDict):
             if k == "odict" and v.pos is None:
                 raise Unsupported("plain dict where an ordered dict is declared", node)
@@ -350,6 +352,10 @@ class Engine:
             return d
         if k == "none" and isinstance(v, VNone):
             return v
+        if isinstance(v, VScalar) and v.ty.kind == "opaque" and ty.kind == "opaque" and v.ty.name != ty.name:
+            cast = getattr(self.registry, "opaque_casts", {}).get((v.ty.name, ty.name))
+            if cast is not None:
+                return VScalar(cast(self, v.z), ty)
         if isinstance(v, VScalar) and is_scalar(ty):
             if ty.kind == "obj" and v.ty.kind == "obj":
                 return v
@@ -912,6 +918,9 @@ class Engine:
 
     def assign(self, tgt, v: V, st: State, node=None) -> List[Tuple[State, Any]]:
         if isinstance(tgt, ast.Name):
+            lt = getattr(self.current, "local_types", None) or {}
+            if tgt.id in lt and isinstance(v, VPy) and isinstance(v.obj, tuple) and v.obj[:1] in (("emptyset",), ("dictlit",)):
+                v = self.coerce(v, lt[tgt.id], st, tgt)
             st.env[tgt.id] = v
             if isinstance(node, ast.Name) and isinstance(v, (VSet, VList, VDict)):
                 raise Unsupported("aliasing a mutable container (%s = %s)" % (tgt.id, node.id), tgt)
